@@ -7,7 +7,7 @@
 From Coq Require Import QArith Reals List Bool.
 Import ListNotations.
 From TT Require Import Num NumR Tree M_like M_rescale P_like P_rescale.
-From TT Require Import M_prune_loop G_prune.
+From TT Require Import M_prune_loop G_prune P_prune_loop P_rescale_loop.
 Open Scope R_scope.
 
 (* For ANY positive scalers (the code's per-node maxima over categories x states, or 1 for the nodes
@@ -37,6 +37,16 @@ Theorem C03_rescaled_returned_expression :
   g_return_rescaled = expected_return_rescaled /\ g_return_safe = expected_return_rescaled.
 Proof. split; reflexivity. Qed.
 Print Assumptions C03_rescaled_returned_expression.
+
+(* ... and the rescaled ARRAY LOOP built around that regenerated numerator ([rs_update]: the K numerators of a
+   node, divided by the node's scaler; ln scaler added to the running sum) leaves at the root exactly the
+   model's rescaled recursion [prune_rs] — whose value C03_rescaled_eq_plain proves equal to the plain
+   log-likelihood.  Any number type, any scaler function, any soundly numbered tree, any categories. *)
+Theorem C03_rescaled_array_loop_is_model : forall (T : Type) (N : Num T) sc Ps tip t (a : nat -> list vec * T),
+  wfi t -> (forall i, In i (ileaves t) -> a i = (map (fun _ => tip i) Ps, zero N)) ->
+  loop (rs_update N sc Ps) (postorder t) a (iidx t) = prune_rs N sc Ps tip t.
+Proof. exact @rescaled_loop_is_prune_rs. Qed.
+Print Assumptions C03_rescaled_array_loop_is_model.
 
 (* Once rescaling has been switched on it stays on, whatever later evaluations report. *)
 Theorem C03_flag_sticky : forall history, flag_after history true = true.
